@@ -116,7 +116,7 @@ def check_identity(f, rep):
             if blk["cleanup"]:
                 continue
             for st in blk["stmts"]:
-                if st["k"] == "assign" and st["rv"]["k"] == "aggregate" and st["rv"]["ak"] == "adt" and st["rv"]["adt"].endswith("util::PeerIdentity"):
+                if st["k"] == "assign" and st["rv"]["k"] == "aggregate" and st["rv"]["ak"] == "adt" and st["rv"]["adt"].split("::")[-1] == "PeerIdentity":
                     ctor_sites.setdefault(b.path, 0)
                     ctor_sites[b.path] += 1
     rep.floor("R04.3", "PeerIdentity tuple-constructor sites", len(ctor_sites), 2)
@@ -449,10 +449,10 @@ def check_report(f, rep):
         for p in pathq.paths(f, b):
             if p.end != "return":
                 continue
-            hs = [e for (e, c, _, _) in p.conds if e[0] == "discr" and pathq.is_poll_of(pathq.unwrap_try(e[1]), "util::peer_connected")]
+            hs_ = [e for (e, c, _, _) in p.conds if e[0] == "discr" and hs.is_poll_of_role(f, pathq.unwrap_try(e[1]), "driver")]
             for (e, c, _, _) in p.conds:
                 if e[0] == "discr" and e[1][0] in ("pure", "call") and short(e[1][1]) == "branch" and c == ("eq", 1) and \
-                        pathq.mentions_call(e[1], lambda x: pathq.is_poll_of(x, "util::peer_connected")) is not None:
+                        pathq.mentions_call(e[1], lambda x: hs.is_poll_of_role(f, x, "driver")) is not None:
                     if pathq.ret_kind(p) == "Err":
                         prop = True
                     else:
